@@ -574,6 +574,84 @@ __CPROVER_decreases(s->size - verif_i)
 
 
 # ---------------------------------------------------------------------------------------------------------------------
+class CmpCalls(Rule):
+    """member calls `self->operator<=>(ARG)` inside the comparison operators: the overload is chosen from the static type of ARG --
+    `*VAR` where VAR was declared `const T* VAR = get_if<N>(...)`, `X.c_str()` (const char*), or a parameter of the function."""
+    OVL = {'bool': 'JSON_cmp_bool', 'int64_t': 'JSON_cmp_int', 'double': 'JSON_cmp_double', 'string': 'JSON_cmp_str', 'vstr': 'JSON_cmp_str',
+           'list_type': 'JSON_cmp_list', 'dict_type': 'JSON_cmp_dict', 'JSON': 'JSON_cmp', 'JSONV': 'JSON_cmp'}
+
+    def __init__(self, params=None):
+        self.pat, self.params = 'operator<=> overload resolution', params or {}
+
+    def apply(self, text, where=''):
+        def type_of(v, pos):
+            """static type of variable v at text position pos: its nearest preceding declaration (block scopes re-declare names)"""
+            best = None
+            for mo in re.finditer(r'\bconst (\w+)\* %s = (JSONV_get_if_([56])\()?' % re.escape(v), text[:pos]):
+                best = ('list_type' if mo.group(3) == '5' else 'dict_type') if mo.group(3) else mo.group(1)
+            return best or self.params.get(v)
+
+        def rep(mo):
+            arg = mo.group(1).strip()
+            if re.fullmatch(r'(\w+)(?:\.|->)c_str\(\)', arg):
+                return 'JSON_cmp_cstr(self, C04_c_str(%s))' % re.match(r'\w+', arg).group(0)
+            m2 = re.fullmatch(r'\*(\w+)', arg)
+            v = m2.group(1) if m2 else arg
+            t = type_of(v, mo.start())
+            if t not in self.OVL:
+                raise ExtractionBreak('%s: cannot resolve operator<=>(%s)' % (where, arg))
+            by_ptr = t in ('string', 'vstr', 'list_type', 'dict_type', 'JSON', 'JSONV')
+            return '%s(self, %s)' % (self.OVL[t], v if by_ptr else ('*' + v if m2 else arg))
+        return re.sub(r'\bself->operator<=>\(([^;()]*(?:\([^()]*\))?[^;()]*)\)', rep, text)
+
+
+def compare_unit(ctx, src):
+    """JSON::operator<=> (all scalar overloads, the dispatch on the other value's alternative) and operator==(T)."""
+    u = Unit(ctx, 'json_compare')
+    PO = [Rule(r'\bpartial_ordering::(\w+)', r'PO_\1', count=None, regex=True),
+          Rule(r'\b(?:const )?(?:auto|nullptr_t|bool|int64_t|double)\* (\w+) = (?:::)?get_if<(\d)>\(&(self|other)(?:->|\.)value\);',
+               lambda mo: 'const %s* %s = JSONV_get_if_%s(%s);' % ({'0': 'int', '1': 'bool', '2': 'int64_t', '3': 'double'}[mo.group(2)], mo.group(1), mo.group(2), mo.group(3)), count=None, regex=True),
+          Rule(r'\bconst string\* (\w+) = (?:::)?get_if<4>\(&(self|other)(?:->|\.)value\);', r'const vstr* \1 = JSONV_get_if_4(\2);', count=None, regex=True),
+          Rule(r'\bconst (list_type|dict_type)\* (\w+) = (?:::)?get_if<([56])>\(&(self|other)(?:->|\.)value\);', r'const JSONV* \2 = JSONV_get_if_\3(\4); /* \1 */', count=None, regex=True),
+          Rule(r'(?:::)?get<2>\((self|other)(?:->|\.)value\)', r'(\1->i)', count=None, regex=True),
+          Rule(r'(?:::)?get<3>\((self|other)(?:->|\.)value\)', r'(\1->f)', count=None, regex=True),
+          Rule(r'\b(self|other)(?:->|\.)value\.index\(\)', r'((size_t)\1->kind)', count=None, regex=True),
+          # built-in three-way comparison of two arithmetic operands
+          Rule(r'\(?(\*?\w+(?:->\w+)?|\(\w+->[if]\)) <=> (\*?\w+(?:->\w+)?|\(\w+->[if]\))\)?', r'PO_3WAY(\1, \2)', count=None, regex=True)]
+    u.raw('#include <stdbool.h>\n#include <stdint.h>\n'
+          '/* get_if on the value, alternative N: pointer to the payload when that alternative is held, null otherwise */\n'
+          'static int C04_null_payload;\n'
+          'static inline const int* JSONV_get_if_0(const JSONV* v) { return v->kind == 0 ? &C04_null_payload : 0; }\n'
+          'static inline const bool* JSONV_get_if_1(const JSONV* v) { return v->kind == 1 ? &v->b : 0; }\n'
+          'static inline const int64_t* JSONV_get_if_2(const JSONV* v) { return v->kind == 2 ? &v->i : 0; }\n'
+          'static inline const double* JSONV_get_if_3(const JSONV* v) { return v->kind == 3 ? &v->f : 0; }\n'
+          'static inline const vstr* JSONV_get_if_4(const JSONV* v) { return v->kind == 4 ? &v->s : 0; }\n'
+          'static inline const JSONV* JSONV_get_if_5(const JSONV* v) { return v->kind == 5 ? v : 0; }\n'
+          'static inline const JSONV* JSONV_get_if_6(const JSONV* v) { return v->kind == 6 ? v : 0; }\n')
+    CCJ = 'src/JSON.cc'
+    HHJ = 'src/JSON.hh'
+    J = r'partial_ordering JSON::operator<=>\('
+    u.function(src, CCJ, r'static inline partial_ordering partial_ordering_for_string_compare_result\(int res\)',
+               new_header='int partial_ordering_for_string_compare_result(int res)', rules=PO)
+    u.function(src, CCJ, J + r'nullptr_t\) const', new_header='int JSON_cmp_null(const JSONV* self)', rules=PO)
+    u.function(src, CCJ, J + r'bool v\) const', new_header='int JSON_cmp_bool(const JSONV* self, bool v)', rules=PO)
+    u.raw('int JSON_cmp_cstr(const JSONV* self, const char* v);\nint JSON_cmp_str(const JSONV* self, const vstr* v);')
+    u.function(src, CCJ, J + r'const char\* v\) const', new_header='int JSON_cmp_cstr(const JSONV* self, const char* v)',
+               rules=PO + [Rule(r'(\w+)->compare\(v\)', r'C04_compare_cstr(\1, v)', count=None, regex=True), CmpCalls({'v': 'cstr'})])
+    u.function(src, CCJ, J + r'const string& v\) const', new_header='int JSON_cmp_str(const JSONV* self, const vstr* v)',
+               rules=PO + [Rule(r'(\w+)->compare\(v\)', r'C04_compare_str(\1, v)', count=None, regex=True),
+                           Rule(r'(\w+)->compare\(v\.c_str\(\)\)', r'C04_compare_cstr(\1, C04_c_str(v))', count=None, regex=True), CmpCalls({'v': 'vstr'})])
+    for ty, nm in (('int64_t', 'int'), ('double', 'double')):
+        u.function(src, HHJ, r'partial_ordering operator<=>\(T v\) const', new_header='int JSON_cmp_%s(const JSONV* self, %s v)' % (nm, ty), rules=PO, scope=r'class JSON')
+    u.raw('int JSON_cmp_list(const JSONV* self, const JSONV* other);\nint JSON_cmp_dict(const JSONV* self, const JSONV* other);\nint JSON_cmp(const JSONV* self, const JSONV* other);')
+    u.function(src, CCJ, J + r'const JSON& other\) const', new_header='int JSON_cmp(const JSONV* self, const JSONV* other)',
+               rules=PO + [CmpCalls()], ret_zero='0')
+    u.function(src, HHJ, r'bool operator==\(T v\) const', new_header='bool JSON_eq(const JSONV* self, const JSONV* v)',
+               rules=PO + [CmpCalls({'v': 'JSONV'})], scope=r'class JSON')
+    u.write()
+    return u
+
+
 def plan(ctx):
     src = Source(ctx.src)
     core = reader_prelude(ctx, src)
@@ -630,6 +708,24 @@ def plan(ctx):
     groups.append(Group(name='JSON.string.roundtrip[len<=2]', harness=HT, entry='h_string_bounded', function='JSON::serialize case 4 -> JSON::parse string branch',
                         defines=D + ['C04_STRMAX=2'], kind='bounded', bound='strings of at most 2 bytes (every byte value, every option set); loops unwound 4 times',
                         cbmc_flags=['--unwind', '4', '--unwinding-assertions'], min_post=5, timeout=600, stage1=60, replay=RP('string_roundtrip')))
+    # comparison operators: "a value EQUAL to the original", "copies compare equal to their source"
+    ucmp = compare_unit(ctx, src)
+    ctx.functions_under_contract += ucmp.functions
+    HCMP = 'harness/C04/compare.c'
+    SUBS = ['C04_compare_str', 'C04_compare_cstr']
+    for entry, fn, cxx, rep in [('po_string', 'partial_ordering_for_string_compare_result', 'partial_ordering_for_string_compare_result', []),
+                                ('cmp_null', 'JSON_cmp_null', 'JSON::operator<=>(nullptr_t)', []), ('cmp_bool', 'JSON_cmp_bool', 'JSON::operator<=>(bool)', []),
+                                ('cmp_str', 'JSON_cmp_str', 'JSON::operator<=>(const std::string&)', SUBS), ('cmp_cstr', 'JSON_cmp_cstr', 'JSON::operator<=>(const char*)', SUBS),
+                                ('cmp_int', 'JSON_cmp_int', 'JSON::operator<=>(T) [T = int64_t]', []), ('cmp_double', 'JSON_cmp_double', 'JSON::operator<=>(T) [T = double]', []),
+                                ('cmp', 'JSON_cmp', 'JSON::operator<=>(const JSON&)', SUBS + ['JSON_cmp_list', 'JSON_cmp_dict']),
+                                ('eq', 'JSON_eq', 'JSON::operator==(T) [T = const JSON&]', ['JSON_cmp'])]:
+        groups.append(Group(name='JSON.compare.' + entry, harness=HCMP, entry='h_' + entry, function=cxx, enforce=fn, replace=rep, kind='loop-free', timeout=300,
+                            engines=['minisat', 'cadical'],       # double comparisons: one NaN in the SMT FP theory is enough here, but bit-level engines answer in < 1 s
+                            clause_note='contracts/C04_compare.h: ordering of two values by alternative and payload; strings over their full byte sequences '
+                                        '(std::string::compare(const std::string&)), never through a C-string view that stops at a NUL',
+                            replay=RP('compare')))
+    groups.append(Group(name='JSON.compare.lemma[scalar equal to its copy]', harness=HCMP, entry='l_eq_reflexive', function='JSON::operator== (contract)',
+                        replace=['JSON_eq'], kind='lemma', min_post=1, engines=['minisat', 'cadical'], replay=RP('compare')))
     HC = 'harness/C04/containers.c'
     AB = D + ['C04_EMIT_ABSTRACT=1']
     groups.append(Group(name='JSON.serialize.list', clause_note='contracts/C04_container.h: the emitted tokens are accepted by the RFC 8259 array automaton, one value per element, children with the parent options, list order',
@@ -698,8 +794,11 @@ DROPS = ('std::string results -> vstr out-parameters (escape_string appends to t
 NOT_DECIDED = [
     'numeric closeness of a parsed float to the original (six significant digits): floating-point loop arithmetic of the number branch and the '
     'value printf("%g") denotes are outside this family -- only "consumed entirely, float kind, RFC number" is decided, bounded by the %g grammar',
-    'operator<=> / operator== and the deep copy (std::variant, unique_ptr, unordered_map semantics: nothing of phosg is left after the stubs); '
-    'equality is decided per scalar payload (kind + value / bytes) and per element count only',
+    'the deep copy (std::variant, unique_ptr, unordered_map semantics: nothing of phosg is left after the stubs) and the element-wise comparison loops of '
+    'the list / dict overloads of operator<=> (children opaque: contract-only here).  Decided (groups JSON.compare.*): every scalar overload of operator<=>, '
+    'the dispatch operator<=>(const JSON&) and operator==(T): values of different alternatives are unordered (int / float compare numerically), same '
+    'alternative by payload, strings by std::string::compare over their FULL byte sequences -- the strings themselves are abstracted to the sign of that '
+    'comparison and of the comparison with the argument\'s C-string prefix (ghost facts tied by what holds for every pair of strings)',
     'agreement with an independent JSON implementation: replaced by the RFC 8259 grammar as specification; for bytes >= 0x80 STANDARD mode '
     'writes \\u00XX, which RFC 8259 reads as the code point U+00XX -- identifying it with the byte XX is phosg\'s convention',
     're-serialization reproduces the text exactly: follows from determinism of serialize on equal values, not stated as an obligation; key order under '
@@ -723,7 +822,7 @@ MANIFEST = dict(
           'end-to-end runs against the parser\'s container loops in strict and default mode.'),
     note=('Trusted: cbmc, the answering solver, the extractor and its lowering rules, the value / string / printf / to_string models, the RFC 8259 and '
           '%g grammars written as specification. Bounded (never counted as proved): float syntax (%g texts <= 13 characters = the whole grammar), strings '
-          '<= 2 bytes and containers <= 2 elements end to end. Not decided: numeric accuracy of floats, operator<=> / deep copy, agreement with another '
+          '<= 2 bytes and containers <= 2 elements end to end. Not decided: numeric accuracy of floats, deep copy and the list/dict comparison loops (the scalar comparison operators and the dispatch are under contract), agreement with another '
           'implementation beyond the RFC grammar, the inductions that compose the pieces. Depends on the C05 repairs of JSON::parse for the clauses '
           '"strict mode accepts [] and {}" (C05-1) and "exponent-form numbers parse as floats" (C05-2).'),
     technique=('function and loop contracts (requires/ensures/assigns, loop invariants with ghost indices and lock-step ghost folds) enforced with '
